@@ -92,6 +92,7 @@ type Conn struct {
 	serverName     string
 	clientProtocol string
 	workKey        []byte
+	workKeyMu      sync.Mutex // 保护 workKey：Close 可能与正在进行的握手并发
 	cookieSecret   []byte // 随机生成的 cookie 密钥（Config.CookieSecret 为空时使用）
 
 	closeNotifySent bool
@@ -1295,10 +1296,18 @@ func (c *Conn) Close() error {
 			alertErr = fmt.Errorf("dtlcp: failed to send closeNotify alert (but connection was closed anyway): %w", err)
 		}
 	}
-	setZero(c.workKey)
-	c.workKey = nil
+	c.setWorkKey(nil)
 
 	return alertErr
+}
+
+// setWorkKey 将原工作密钥置零并记录新的工作密钥。
+// 显式调用的 Handshake 不计入 activeCall，可能与 Close 并发，因此使用独立的锁。
+func (c *Conn) setWorkKey(key []byte) {
+	c.workKeyMu.Lock()
+	defer c.workKeyMu.Unlock()
+	setZero(c.workKey)
+	c.workKey = key
 }
 
 // CloseWrite 关闭连接的写入端，发送 close_notify 告警后关闭写入方向。
